@@ -212,6 +212,13 @@ def impl_eval(item):
     return {'rpn': rpn, 'reads': reads, 'resolved': resolved, 'out': out}
 
 
+def impl_ops(item):
+    """The operator tokens of the running implementation (so that the generator also exercises operators the
+    model does not know yet)."""
+    from graphtage import expressions as E
+    return [[op.name, op.token] for op in E.Operator]
+
+
 # ------------------------------------------------------------------ environments
 
 PUBLIC = ['pub', 'name', 'val', 'child', 'data', 'items', 'format', 'offset', 'tag']
@@ -349,6 +356,109 @@ def gen_expr(rng, depth=0):
     return '(' + ', '.join(wrap(rng, gen_expr(rng, depth + 1), 0.6) for _ in range(rng.choice([2, 2, 3]))) + ')'
 
 
+# ---- structure-aware stream: expressions that really walk the object graph of std_env(0)
+
+def _attrs0():
+    return {o['id']: dict((n, v) for n, v in o['attrs']) for o in std_env(0)['objects']}
+
+
+OBJ_PATHS = {0: ['o', 'from', "d['a']", 'l[0]', '(q.tag)[1]'],
+             1: ['p', 'to', 'o.child', 'l[1]', 'd[1]'],
+             2: ['q', 't[0]', '(o.data)[0]', "(p.items)['k']", '(o.child.items)["k"]']}
+
+
+def gen_walk(rng):
+    """(expression, valspec or None) following planted attributes from a local."""
+    attrs = _attrs0()
+    oid = rng.choice([0, 0, 1, 1, 2])
+    e = rng.choice(OBJ_PATHS[oid])
+    cur = {'o': oid}
+    for _ in range(rng.choice([1, 1, 1, 2, 2, 3])):
+        if cur is None:
+            break
+        k, x = next(iter(cur.items()))
+        if k == 'o':
+            a = attrs[x]
+            r = rng.random()
+            if r < 0.55:
+                n = rng.choice([m for m in a if not m.startswith('_')])
+            elif r < 0.85:
+                n = rng.choice([m for m in a if m.startswith('_')] or ['_x'])
+            else:
+                n = rng.choice(MEMBERS)
+            e = f'{e}.{n}' if rng.random() < 0.7 else f'({e}).{n}'
+            cur = a.get(n) if not n.startswith('_') else None
+        elif k in ('l', 't') and x:
+            i = rng.randrange(-1, len(x) + 1)
+            e = f'({e})[{i}]'
+            cur = x[i] if -1 <= i < len(x) else None
+        elif k == 'd' and x:
+            kk, vv = rng.choice(x)
+            key = quote(kk['s']) if 's' in kk else str(kk['i'])
+            e = f'({e})[{key}]'
+            cur = vv
+        elif k == 's':
+            e = f'({e}).{rng.choice(["format", "upper", "format_map", "join", "_x", "startswith"])}'
+            cur = None
+        else:
+            break
+    return e, cur
+
+
+def gen_typed(rng):
+    e, cur = gen_walk(rng)
+    r = rng.random()
+    if r < 0.25:
+        return e
+    if r < 0.4:
+        e2, _ = gen_walk(rng)
+        return f'({e}){rng.choice(BINOPS)}({e2})'
+    if r < 0.5:
+        return f'({e}){rng.choice(BINOPS)}{rng.choice(["1", "0", quote("a"), "n", "[1]"])}'
+    if r < 0.6:
+        return f'{rng.choice(["len", "str", "bool", "list", "tuple", "int", "dict", "sorted", "abs", "hash", "id"])}(({e}))'
+    if r < 0.7:
+        e2, _ = gen_walk(rng)
+        return f'({e}) ? ({e2}) : {rng.choice(["1", "o", quote("x")])}'
+    if r < 0.8:
+        e2, _ = gen_walk(rng)
+        return f'[({e}), ({e2})]' if rng.random() < 0.5 else f'(({e}), ({e2}))[{rng.choice([0, 1, 2])}]'
+    if r < 0.9:
+        e2, _ = gen_walk(rng)
+        return f'{quote(gen_format_typed(rng, [None, None]))}.format(({e}), ({e2}))'
+    return f'{rng.choice(UNOPS)}({e})'
+
+
+def gen_format_typed(rng, argobjs):
+    """A format string whose fields walk planted attributes of the positional arguments (object ids, or None)."""
+    attrs = _attrs0()
+    parts = []
+    for _ in range(rng.choice([1, 1, 2, 2, 3])):
+        i = rng.randrange(len(argobjs))
+        oid = argobjs[i]
+        f = rng.choice([str(i), str(i), '']) if len(parts) == 0 or rng.random() < 0.8 else ''
+        cur = {'o': oid} if oid is not None else {'o': rng.choice([0, 1, 2])}
+        for _ in range(rng.choice([1, 1, 2, 3])):
+            if cur is None or 'o' not in cur:
+                break
+            a = attrs[cur['o']]
+            n = rng.choice(list(a)) if rng.random() < 0.85 else rng.choice(MEMBERS)
+            f += '.' + n
+            cur = a.get(n)
+            if cur is not None and next(iter(cur)) in ('l', 't') and rng.random() < 0.6:
+                x = next(iter(cur.values()))
+                j = rng.randrange(len(x) + 1)
+                f += f'[{j}]'
+                cur = x[j] if j < len(x) else None
+            elif cur is not None and 'd' in cur and rng.random() < 0.6:
+                kk, vv = rng.choice(cur['d'])
+                f += '[' + (kk['s'] if 's' in kk else str(kk['i'])) + ']'
+                cur = vv
+        f += rng.choice(['', '', '', '!r', '!s', ':>4', ':', '!a:'])
+        parts.append(rng.choice(['', 'a', ' ', '{{', '}}']) + '{' + f + '}')
+    return ''.join(parts)
+
+
 def wrap(rng, s, p=0.5):
     return f'({s})' if rng.random() < p else s
 
@@ -419,26 +529,64 @@ def name_probe():
     return out
 
 
+def ops_probe(ops):
+    """Every operator of the running implementation applied to a tripwired object and the name of a private attribute."""
+    out = []
+    for _, t in ops:
+        if not all(32 < ord(c) < 127 for c in t) or t in ('[', '.'):
+            continue
+        sp = ' ' if t.isalpha() else ''
+        out += [f"o{sp}{t}{sp}'_x'", f"'_x'{sp}{t}{sp}o", f"o{sp}{t}{sp}_x", f"{t}{sp}o", f"o{sp}{t}{sp}p", f"d{sp}{t}{sp}'_k'",
+                f"(o{sp}{t}{sp}'_secret'){sp}{t}{sp}'_'", f"{t}{sp}'_x'", f"o{sp}{t}{sp}('_x')", f"(o){sp}{t}{sp}(n)",
+                f"1{sp}{t}{sp}2", f"'a'{sp}{t}{sp}'b'", f"l{sp}{t}{sp}l", f"n{sp}{t}{sp}0"]
+    return out
+
+
 FRAME_ESCAPE = ("((((((list(zip((iter((g.walk), 0)), [1])))[0])[0]).gi_frame).f_builtins)['getattr'])(g, '_x')")
 
 
-def gen_cases(tier, rng):
+def gen_cases(tier, rng, ops=()):
     cases = []
     e0, e1, e2 = std_env(0), std_env(1), data_env()
+    for s in ops_probe(ops):
+        cases.append({'expr': s, 'env': e0, 'stream': 'operators'})
     for s in d12_family():
         cases.append({'expr': s, 'env': e0, 'stream': 'd12'})
     for s in caps_probe():
         cases.append({'expr': s, 'env': e0, 'stream': 'caps'})
     for s in name_probe():
         cases.append({'expr': s, 'env': e0, 'stream': 'names'})
-    n_rand = 2500 if tier == 'quick' else 40000
+    n_rand = 2500 if tier == 'quick' else 100000
     for i in range(n_rand):
         s = gen_expr(rng)
         env = e0 if i % 5 else (e1 if i % 10 else e2)
         cases.append({'expr': s, 'env': env, 'stream': 'grammar'})
         if i % 2 == 0:
             cases.append({'expr': mutate(rng, s), 'env': env, 'stream': 'mutated'})
-    n_fmt = 1200 if tier == 'quick' else 20000
+    for i in range(n_rand // 2):
+        s = gen_typed(rng)
+        cases.append({'expr': s, 'env': e0, 'stream': 'walk'})
+        if i % 4 == 0:
+            cases.append({'expr': mutate(rng, s), 'env': e0, 'stream': 'mutated'})
+    for i in range(n_rand // 5):
+        # (the real parser mis-counts arguments once an argument is parenthesised or contains an operator, so several
+        #  arguments are bare names and only a single argument may be a complex expression)
+        k = rng.choice([1, 1, 2, 2, 3])
+        if k == 1:
+            argsel = [rng.choice([(0, '(o)'), (1, '(o.child)'), (2, '(t[0])'), (0, "(d['a'])"), (2, '((o.data)[0])'), (1, 'p')])]
+        else:
+            argsel = [rng.choice([(0, 'o'), (1, 'p'), (2, 'q'), (0, 'from'), (1, 'to')]) for _ in range(k)]
+        f = gen_format_typed(rng, [a for a, _ in argsel])
+        if i % 5 == 0:
+            f = mutate(rng, f)
+        if "'" in f and '"' in f:
+            continue
+        shape = rng.choice(['{q}.format({a})', '{q}.format({a})', 'str.format({q}, {a})', '({q}.format)({a})'])
+        if k == 1 and shape.startswith('str.format'):
+            shape = '{q}.format({a})'
+        cases.append({'expr': shape.replace('{q}', quote(f)).replace('{a}', ', '.join(x for _, x in argsel)),
+                      'env': e0, 'stream': 'format-walk'})
+    n_fmt = 1200 if tier == 'quick' else 50000
     for i in range(n_fmt):
         f = gen_format_string(rng)
         if i % 3 == 0:
@@ -671,8 +819,10 @@ def ensure_gen():
 def build(model_targets, proof_targets):
     err = ensure_gen()
     st = common.build(model_targets, proof_targets)
-    if err:
+    if 'ExprGen' not in st['translator']:
         st['translator']['ExprGen'] = err
+        if err and st['broken']:
+            st['broken'].setdefault('translator_errors', {})['ExprGen'] = err
     return st
 
 
@@ -692,7 +842,9 @@ def check(tier, seed):
         for c in corpus:
             c['stream'] = 'corpus'
             c.setdefault('env', std_env(1))
-        cases = corpus + gen_cases(tier, rng)
+        r_ops = common.run_impl('pC19', 'impl_ops', [{}], nproc=1)[0]
+        ops = r_ops.get('ok') or []
+        cases = corpus + gen_cases(tier, rng, ops)
         keep, v, rejected = evaluate(run, wd, cases, st, 'main')
         known_hit = {}
         streams = {}
@@ -714,7 +866,7 @@ def check(tier, seed):
             if st['broken'] and not run.violations:
                 # tie broken (translator / model / proof no longer builds): look harder for a failing input
                 for s2 in range(3):
-                    more = gen_cases('thorough' if tier == 'quick' else tier, random.Random(seed * 1000 + s2 + 7))[:30000]
+                    more = gen_cases('thorough' if tier == 'quick' else tier, random.Random(seed * 1000 + s2 + 7), ops)[:30000]
                     k2, v2, _ = evaluate(run, wd, more, st, f'search{s2}')
                     if v2 is None:
                         break
